@@ -373,6 +373,7 @@ def Start.drops (j : Nat) : Start → Bool
 def Label.drops (j : Nat) : Label → Bool
   | .start _ st => st.drops j
   | .step _ => false
+  | .truncSnap _ => false
 
 theorem inv3_start {j : Nat} {s : Sys} {e : Nat} (hj : j ≠ 0) (c : Nat) (st : Start) (h1 : Inv1 j s e)
     (h3 : Inv3 j s e) (hd : st.drops j = false) : Inv3 j (s.start c st) e := by
@@ -1304,6 +1305,13 @@ theorem inv3_exec {j : Nat} {s : Sys} {e e' : Nat} (hj : j ≠ 0) (l : Label)
     (h1 : Inv1 j s e) (h2 : Inv2 j s e) (h3 : Inv3 j s e) (hd : l.drops j = false)
     (h1' : Inv1 j (s.exec l) e') (h2' : Inv2 j (s.exec l) e') : Inv3 j (s.exec l) e' := by
   cases l with
+  | truncSnap j' =>
+    simp only [Sys.exec] at h1' h2' ⊢
+    have hent : ∀ n, (s.store.del (.snap j')) (.ent j n) = s.store (.ent j n) := by intro n; simp [Store.del]
+    have hee : e = e' := EntRange.unique h1.range (by intro n; rw [← hent n]; exact h1'.range n)
+    subst hee
+    exact inv3_frame h1 h3 hent (by simp [Store.del]) (fun c => by simp [Store.del]) (Nat.le_refl _)
+      (fun x hx _ => hx) (fun x hx => hx) (fun c => Or.inl rfl)
   | start c st =>
     simp only [Sys.exec] at h1' h2' ⊢
     have hst : (s.start c st).store = s.store := by
@@ -1425,6 +1433,7 @@ theorem objsDecr_of_inv3 {j s e} (h3 : Inv3 j s e) : ObjsDecr s.store j := by
 
 theorem exec_acks_mono (s : Sys) (l : Label) (x : Ack) (h : x ∈ s.acks) : x ∈ (s.exec l).acks := by
   cases l with
+  | truncSnap j' => simpa [Sys.exec] using h
   | start c st =>
     simp only [Sys.exec, Sys.start]
     repeat' split
